@@ -1,0 +1,1 @@
+//! Wrappers around the crate-private onion failure-packet helpers of `ln::onion_utils`.
